@@ -352,9 +352,10 @@ def only_called_from(fx, fn, allowed):
     return True
 
 
-def reach_bool_sensitive(fx, f, starts, stop=(), within=None, limit=6000):
+def reach_bool_sensitive(fx, f, starts, stop=(), within=None, limit=6000, assume=None):
     """blocks reachable from `starts`, path sensitive in boolean temporaries: a block that sets `_t = const b` (the arms of `matches!`, `&&`,
-    `||`) and later switches on `_t` continues on the matching edge only.  `stop` blocks are reached but not expanded."""
+    `||`) and later switches on `_t` continues on the matching edge only.  `stop` blocks are reached but not expanded.
+    `assume` maps call blocks to the boolean their call is taken to return ("what if every identity test says no")."""
     seen = set()
     out = set()
     work = [(b, ()) for b in starts]
@@ -381,6 +382,8 @@ def reach_bool_sensitive(fx, f, starts, stop=(), within=None, limit=6000):
         t = f.blocks[b]["t"]
         if t[0] == "call" and not t[3][1]:
             e.pop(t[3][0], None)
+            if assume and b in assume:
+                e[t[3][0]] = assume[b]
         env2 = tuple(sorted(e.items()))
         if t[0] == "switch" and t[1][0] in ("c", "m") and not t[1][1][1] and t[1][1][0] in e:
             val = str(e[t[1][1][0]])
